@@ -541,9 +541,6 @@ def _hist_job(args):
 
 
 def run(chk):
-    import glob
-    for stale in glob.glob(L.SCRATCH_PREFIX + "c14-*"):
-        L.rm_scratch(stale)
     chk.theorems("props.C14", THEOREMS, ["theories/props/C14.vo", "theories/model/LocalFileObs.vo"])
     rng = chk.rng
     nhist, maxlen = (350, 20) if chk.tier == "quick" else (5000, 28)
